@@ -606,6 +606,83 @@ def alpha_for(charset):
     return {"utf-8": ALPHA, "latin-1": LATIN, "ascii": ASCII}[charset]
 
 
+def extra(rng, tier):
+    """real time (no scripted queue): a reader that is slower than the ping interval, a producer that is; every event
+    must still arrive, once, in order, on both interfaces; pings may come in between"""
+    import threading
+    import time
+
+    violations = []
+    runs = 0
+    n = 6
+    for iface in ("wsgi", "asgi"):
+        for reader_delay, producer_delay, ping in ((0.06, 0.0, 0.02), (0.0, 0.05, 0.02), (0.03, 0.03, 0.01), (0.0, 0.0, 0.5)):
+            label = "slow %s reader=%.2fs producer=%.2fs ping=%.2fs" % (iface, reader_delay, producer_delay, ping)
+            got, err = [], []
+
+            def run_wsgi_case():
+                def producer():
+                    for i in range(n):
+                        if producer_delay:
+                            time.sleep(producer_delay)
+                        yield {"data": "event %d" % i}
+
+                resp = wsgi_responses.SendEventResponse(producer(), ping_interval=ping)
+                body = resp({"REQUEST_METHOD": "GET"}, lambda status, headers, exc_info=None: None)
+                try:
+                    for chunk in body:
+                        got.append(chunk)
+                        if reader_delay:
+                            time.sleep(reader_delay)
+                finally:
+                    if hasattr(body, "close"):
+                        body.close()
+
+            def run_asgi_case():
+                async def main():
+                    async def producer():
+                        for i in range(n):
+                            if producer_delay:
+                                await asyncio.sleep(producer_delay)
+                            yield {"data": "event %d" % i}
+
+                    async def receive():
+                        await asyncio.Event().wait()
+
+                    async def send(msg):
+                        if msg["type"] == "http.response.body" and msg.get("body"):
+                            got.append(msg["body"])
+                            if reader_delay:
+                                await asyncio.sleep(reader_delay)
+
+                    resp = asgi_responses.SendEventResponse(producer(), ping_interval=ping)
+                    await asyncio.wait_for(resp({"type": "http", "method": "GET", "headers": []}, receive, send), 20)
+
+                asyncio.run(main())
+
+            def target():
+                try:
+                    (run_wsgi_case if iface == "wsgi" else run_asgi_case)()
+                except BaseException as exc:  # noqa
+                    err.append(exc_name(exc))
+
+            t = threading.Thread(target=target, daemon=True)
+            t.start()
+            t.join(30)
+            runs += 1
+            if t.is_alive():
+                violations.append({"line": label, "out": "hang", "why": "the event stream did not end within 30 s"})
+                continue
+            text = b"".join(got).decode("utf-8", "replace")
+            datas = [r[3] for r in whatwg_parse(text)]
+            want = ["event %d" % i for i in range(n)]
+            if err or datas != want:
+                violations.append({"line": label, "out": "%s %s" % (err, datas),
+                                   "why": "a %s: the client received %s%s, the producer yielded %s"
+                                          % (label, datas, (" and the stream raised %s" % err[0]) if err else "", want)})
+    return {"violations": violations, "real_time_streams": runs}
+
+
 def cases(rng, tier):
     yield from corpus_lines(PROPERTY)
     thorough = tier == "thorough"
